@@ -380,8 +380,10 @@ Canon(v) == IF v.t = "arr" THEN VArr(Tup([x \in 1..Len(v.k) |-> Canon(v.k[x])]))
             ELSE IF v.t = "obj" THEN VObj(UnPairs(SortPairs(PairsOf(Tup([x \in 1..Len(v.k) |-> IF x % 2 = 1 THEN v.k[x] ELSE Canon(v.k[x])]), 1)), 1))
             ELSE v
 HasNonFinite(v) == v.t = "nonfinite" \/ \E x \in 1..Len(v.k) : HasNonFinite(v.k[x])
-KeysAscending(k) == \A x \in 1..(Len(k) \div 2 - 1) : Less(k[2 * x - 1].s, k[2 * x + 1].s)
 HasDupKey(k) == \E x, y \in 1..(Len(k) \div 2) : x < y /\ k[2 * x - 1].s = k[2 * y - 1].s
+RECURSIVE DeepDup(_)
+DeepDup(v) == (v.t = "obj" /\ HasDupKey(v.k)) \/ \E x \in 1..Len(v.k) : DeepDup(v.k[x])
+KeysAscending(k) == \A x \in 1..(Len(k) \div 2 - 1) : Less(k[2 * x - 1].s, k[2 * x + 1].s)
 
 (* ========\* does the descriptor contain a NaN or an infinity?
 RECURSIVE DescNonFinite(_)
@@ -570,6 +572,7 @@ Verdict(r) ==
   IF P.t = "undef" THEN "skip_out_undefined"
   ELSE IF IsBad(P) THEN (IF HasNonFinite(A) THEN "non-finite-float"
                          ELSE IF P.t = "unbound" THEN "unbound-identifier" ELSE "not-a-literal")
+  ELSE IF DeepDup(P) THEN "duplicate-object-key"                \* RFC 8259 section 4: what such an object decodes to is unpredictable
   ELSE IF L = "json" /\ HasNonFinite(A) THEN "ok"               \* no JSON value exists for it: any valid JSON is accepted
   ELSE IF L = "json" THEN
        IF Same(A, P) THEN "ok"
@@ -577,8 +580,8 @@ Verdict(r) ==
             IF h > 0 THEN RelaxName(Relaxations[h]) ELSE "different-data"
   ELSE LET h == IF Same(A, P) THEN 1 ELSE FirstHit(JsReadings, 2, d, L, P) IN
        IF h = 0
-       THEN (IF HasNonFinite(A) THEN "non-finite-float"
-             ELSE IF FirstHit(JsSignLost, 1, d, L, P) > 0 THEN "js-date-negative-subhour-offset"
+       THEN (IF FirstHit(JsSignLost, 1, d, L, P) > 0 THEN "js-date-negative-subhour-offset"
+             ELSE IF HasNonFinite(A) THEN "non-finite-float"
              ELSE "different-data")
        ELSE IF MapOrderOk(d, P, JsReadings[h]) THEN "ok" ELSE "map-keys-not-sorted"
 IsSkip(v) == v \in {"skip_not_accepted", "skip_ref_undefined", "skip_out_undefined"}
